@@ -283,6 +283,17 @@ func (p *Program) verifyFunc(key string, safetyOnly bool) *FuncResult {
 				}
 				e.oblige("fresh", fmt.Sprintf("%s#fresh(ret0)@%s", key, e.posStr(rp.pos)), rp.pos, rp.pc, goal,
 					"the result's own storage is allocated in this activation (declared fresh); label: "+own)
+				// O1': a slice extended into a caller's spare capacity (append(param, x)) may be read or
+				// passed on, but must not be stored in the result: a later sibling append overwrites it
+				deep := joinLabel(labelOf(v), ownOf(v))
+				esc := True
+				for _, lab := range strings.Split(deep, "|") {
+					if strings.HasPrefix(lab, "spare:") {
+						esc = False
+					}
+				}
+				e.oblige("fresh", fmt.Sprintf("%s#nospare(ret0)@%s", key, e.posStr(rp.pos)), rp.pos, rp.pc, esc,
+					"nothing stored in the result aliases spare capacity of a caller's slice (append(path, k) must be cloned before it is kept); reachable labels: "+deep)
 			}
 		}
 		for _, en := range enss {
